@@ -5,7 +5,7 @@ import copy
 from props.common import call, viol, set_knobs, hx
 from sim.objects import build, snapshot, order_fingerprint
 from ref import fa
-from gen import fa as genfa
+from gen import fa as genfa, edits
 import gambatools.dfa_algorithms as da
 
 ID = 'C04'
@@ -28,59 +28,72 @@ def gen_cases(rng, tier, rnd):
     while len(cases) < n:
         a = genfa.structured_dfa(rng) if rng.random() < 0.35 else genfa.abstract_dfa(rng)
         spec, rank = genfa.rename(a, rng)
-        cases.append({'spec': spec, 'rank': rank, 'abs': hx(a), 'log': rng.random() < 0.25})
+        case = {'spec': spec, 'rank': rank, 'abs': hx(a), 'log': rng.random() < 0.25}
+        if rng.random() < 0.3:
+            case['edit'] = edits.propose(rng, spec)     # minimise, edit the live object in place, minimise again
+        cases.append(case)
     return cases
 
 
 def run_case(case, env):
     D = build(case['spec'])
-    snap0 = snapshot(D)
     fp = order_fingerprint(D, case.get('rank', {}))
-    out = {'viol': [], 'evals': len(OPS), 'ticks': 0, 'probes': {}, 'hist': {}}
-    c_in = fa.canon_of(snap0)
-    call_all, call_reach, n_reach, _ = fa.nerode_counts(snap0)
-    nontrivial = call_all >= 2 and call_all < len(snap0['Q'])
+    out = {'viol': [], 'evals': 0, 'ticks': 0, 'probes': {}, 'hist': {}}
     res_digest = []
-    for op in OPS:
-        set_knobs(logging=case.get('log', False) and op == 'dfa_hopfcroft')
-        st, val, ticks = call(env, getattr(da, op), D)
-        set_knobs(logging=False)
-        out['ticks'] += ticks
-        after = snapshot(D)
-        if after != snap0:
-            out['viol'].append(viol('argument-mutated', op, {'before': snap0, 'after': after}))
-        if st == 'timeout':
-            out['viol'].append(viol('no-result-within-budget', op, val))
-            continue
-        if st == 'exc':
-            out['viol'].append(viol('exception', op, val))
-            res_digest.append([op, val.split(':')[0]])
-            continue
-        try:
-            rs = snapshot(val)
-        except Exception as e:
-            out['viol'].append(viol('invalid-result', op, 'not a DFA: %s' % e))
-            continue
-        if rs.get('kind') != 'dfa':
-            out['viol'].append(viol('invalid-result', op, 'not a DFA'))
-            continue
-        problems = fa.validate_dfa(rs)
-        if problems:
-            out['viol'].append(viol('invalid-result', op, problems[:3]))
-            continue
-        if sorted(rs['Sigma']) != sorted(snap0['Sigma']):
-            out['viol'].append(viol('alphabet-changed', op, [rs['Sigma'], snap0['Sigma']]))
-            continue
-        c_out = fa.canon_of(rs)
-        if c_out != c_in:
-            out['viol'].append(viol('language-differs', op, {'word': fa.canon_distinguishing_word(c_in, c_out)}))
-        r_all, r_reach, r_nreach, r_distinct = fa.nerode_counts(rs)
-        nq = len(rs['Q'])
-        if not r_distinct:
-            out['viol'].append(viol('equivalent-states-remain', op, {'states': nq, 'classes': r_all}))
-        if not (call_reach <= nq <= call_all):
-            out['viol'].append(viol('state-count-out-of-range', op, {'states': nq, 'lo': call_reach, 'hi': call_all}))
-        res_digest.append([op, nq])
+    nontrivial = False
+    for phase in ['fresh'] + (['after-inplace-edit'] if case.get('edit') else []):
+        ptag = []
+        if phase != 'fresh':
+            edits.apply(D, case['edit'])
+            ptag = [phase]
+            out['probes']['inplace_edit_between_calls'] = 1
+            if fa.validate_dfa(snapshot(D)):
+                return {'harness_error': 'edit produced an invalid DFA: %s' % (case['edit'],)}
+        snap0 = snapshot(D)
+        c_in = fa.canon_of(snap0)
+        call_all, call_reach, n_reach, _ = fa.nerode_counts(snap0)
+        nontrivial = nontrivial or (call_all >= 2 and call_all < len(snap0['Q']))
+        for op in OPS:
+            out['evals'] += 1
+            set_knobs(logging=case.get('log', False) and op == 'dfa_hopfcroft')
+            st, val, ticks = call(env, getattr(da, op), D)
+            set_knobs(logging=False)
+            out['ticks'] += ticks
+            after = snapshot(D)
+            if after != snap0:
+                out['viol'].append(viol('argument-mutated', op, {'before': snap0, 'after': after}, tags=ptag))
+            if st == 'timeout':
+                out['viol'].append(viol('no-result-within-budget', op, val, tags=ptag))
+                continue
+            if st == 'exc':
+                out['viol'].append(viol('exception', op, val, tags=ptag))
+                res_digest.append([op, val.split(':')[0]])
+                continue
+            try:
+                rs = snapshot(val)
+            except Exception as e:
+                out['viol'].append(viol('invalid-result', op, 'not a DFA: %s' % e, tags=ptag))
+                continue
+            if rs.get('kind') != 'dfa':
+                out['viol'].append(viol('invalid-result', op, 'not a DFA', tags=ptag))
+                continue
+            problems = fa.validate_dfa(rs)
+            if problems:
+                out['viol'].append(viol('invalid-result', op, problems[:3], tags=ptag))
+                continue
+            if sorted(rs['Sigma']) != sorted(snap0['Sigma']):
+                out['viol'].append(viol('alphabet-changed', op, [rs['Sigma'], snap0['Sigma']], tags=ptag))
+                continue
+            c_out = fa.canon_of(rs)
+            if c_out != c_in:
+                out['viol'].append(viol('language-differs', op, {'word': fa.canon_distinguishing_word(c_in, c_out)}, tags=ptag))
+            r_all, r_reach, r_nreach, r_distinct = fa.nerode_counts(rs)
+            nq = len(rs['Q'])
+            if not r_distinct:
+                out['viol'].append(viol('equivalent-states-remain', op, {'states': nq, 'classes': r_all}, tags=ptag))
+            if not (call_reach <= nq <= call_all):
+                out['viol'].append(viol('state-count-out-of-range', op, {'states': nq, 'lo': call_reach, 'hi': call_all}, tags=ptag))
+            res_digest.append([op, nq])
     if len(snap0['Q']) - n_reach > 0:
         out['probes']['has_unreachable'] = 1
     if not snap0['F']:
@@ -103,6 +116,9 @@ def run_case(case, env):
 
 def shrink(case):
     s = case['spec']
+    if case.get('edit'):
+        c = copy.deepcopy(case); del c['edit']
+        yield c
     if case.get('log'):
         c = copy.deepcopy(case); c['log'] = False
         yield c
